@@ -7,8 +7,8 @@ use proc_macro2::{Ident, TokenStream};
 use quote::{format_ident, quote};
 use syn::{
     parse_quote, spanned::Spanned, ConstParam, Expr, GenericParam, Generics, Item, LifetimeParam,
-    Path, Result, Type, TypeArray, TypeParam, TypeParen, TypePath, TypeReference, TypeSlice,
-    TypeTuple, WhereClause, WherePredicate,
+    Path, Result, Type, TypeArray, TypeGroup, TypeParam, TypeParen, TypePath, TypeReference,
+    TypeSlice, TypeTuple, WhereClause, WherePredicate,
 };
 
 use crate::{deps::Dependencies, utils::format_generics};
@@ -407,12 +407,16 @@ fn used_type_params<'ty, 'out>(
 
     match ty {
         Type::Array(TypeArray { elem, .. })
+        | Type::Group(TypeGroup { elem, .. })
         | Type::Paren(TypeParen { elem, .. })
         | Type::Reference(TypeReference { elem, .. })
         | Type::Slice(TypeSlice { elem, .. }) => used_type_params(out, elem, is_type_param),
         Type::Tuple(TypeTuple { elems, .. }) => elems
             .iter()
             .for_each(|elem| used_type_params(out, elem, is_type_param)),
+        Type::Path(TypePath {
+            qself: Some(qself), ..
+        }) => used_type_params(out, &qself.ty, is_type_param),
         Type::Path(TypePath { qself: None, path }) => {
             let first = path.segments.first().unwrap();
             if is_type_param(&first.ident) {
